@@ -45,14 +45,16 @@ type Task struct {
 	timerSeq int
 	Steps    int
 	Harness  bool
+	ParkedAt time.Time // simulated time at which the task reached its current yield point
 }
 
 func (t *Task) String() string { return fmt.Sprintf("T%d:%s@%s", t.ID, t.Role, t.Site) }
 
 type Event struct {
-	Label string
-	At    time.Time // zero: eligible now
-	Fn    func()
+	Label   string
+	At      time.Time // zero: eligible now
+	Fn      func()
+	Created time.Time // simulated time at which the event was queued
 }
 
 type Runtime struct {
@@ -142,6 +144,7 @@ func (rt *Runtime) park(t *Task, site string) {
 	rt.mu.Lock()
 	t.Site = site
 	t.State = StParked
+	t.ParkedAt = time.Now()
 	rt.parked = append(rt.parked, t)
 	rt.mu.Unlock()
 	<-t.resume
@@ -439,7 +442,7 @@ func (rt *Runtime) AddEventAt(at time.Time, label string, fn func()) {
 		rt.mu.Unlock()
 		panic("simhook: duplicate event label " + label)
 	}
-	rt.events[label] = &Event{Label: label, At: at, Fn: fn}
+	rt.events[label] = &Event{Label: label, At: at, Fn: fn, Created: time.Now()}
 	rt.mu.Unlock()
 }
 
